@@ -376,6 +376,13 @@ def pred_C05(model, params, run):
         if "absence" in it and it["absence"]["time"] >= params["maxTime"]:
             out.append(viol("C05", "a step was simulated at or beyond max_time", time=it["absence"]["time"]))
             break
+    # liveness (search only): a project in the feasible fragment succeeds when max_time exceeds the bound
+    ent0 = run["snaps"][0][1] if run["snaps"] else None
+    if ent0 is not None and params.get("autoFlag") is not None:
+        B = c05_feasible_bound(model, params, ent0)
+        if B is not None and params["maxTime"] > B and fin["status"] != 1:
+            out.append(viol("C05", "feasible project did not complete although max_time %d exceeds the sequential work bound %d" % (params["maxTime"], B),
+                            status=fin["status"], time=fin["time"]))
     # a non-auto unfinished task nobody can serve => not SUCCESS
     ent = run["snaps"][0][1] if run["snaps"] else None
     if ent is not None and fin["status"] == 1:
@@ -390,6 +397,55 @@ def pred_C05(model, params, run):
             if not ok:
                 out.append(viol("C05", "SUCCESS although task %d has no eligible worker" % t))
     return out
+
+
+def c05_feasible_bound(model, params, ent):
+    """None unless the model lies in the liveness fragment; else the sequential work bound B
+    (a project in the fragment must succeed whenever max_time > B)"""
+    import math
+    nT = model["nT"]
+    if any(tk["needFac"] for tk in model["tasks"]):
+        return None
+    if any(tk["isAuto"] and tk["comp"] is not None for tk in model["tasks"]):
+        return None
+    elig = {}
+    for t, tk in enumerate(model["tasks"]):
+        if tk["isAuto"]:
+            if F(tk["autoRate"]) <= 0:
+                return None
+            continue
+        ws = [w for w, wsd in enumerate(model["workers"])
+              if has_skill(wsd["skills"], tk["name"]) and t in model["teams"][wsd["team"]]["targets"]
+              and (tk["fixW"] is None or w in tk["fixW"])]
+        if not ws and ent["tstate"][t] != FINISHED:
+            return None
+        elig[t] = ws
+    gated = set()
+    for t, tk in enumerate(model["tasks"]):
+        for p_, d in tk["inputs"]:
+            if d in (FF, SF):
+                gated.add(t)
+                gated.add(p_)
+    for t in gated:
+        if model["tasks"][t]["isAuto"] or ent["tstate"][t] == FINISHED:
+            continue
+        own = [w for w in elig.get(t, []) if all(w not in elig.get(u, []) for u in elig if u != t)]
+        if not own:
+            return None
+    absn = set(params["absence"])
+    for wsd in model["workers"]:
+        absn |= set(wsd["absence"])
+    B = len(absn) + 2 * nT + 1
+    for t, tk in enumerate(model["tasks"]):
+        rem = max(F(ent["rem"][t]), Fr(0))
+        if tk["isAuto"]:
+            delta = F(tk["autoRate"])
+        elif elig.get(t):
+            delta = min(F(lookup(model["workers"][w]["skills"], tk["name"])) for w in elig[t])
+        else:
+            continue
+        B += math.ceil(rem / delta)
+    return B
 
 
 # ---- C06 ------------------------------------------------------------------------------------
